@@ -135,7 +135,7 @@ def run(ctx, deep=False):
         if hangs >= 2:
             break
         init, ops = P.gen_dict_sequence(ctx.rng, maxlen=10 if thorough else 6)
-        trace, req, fails = P.run_dict_sequence(init, ops)
+        trace, req, fails, ops = P.run_dict_sequence_full(init, ops)  # ops: execution-time arguments resolved
         itok = ",".join("%d=%d" % kv for kv in init) or "-"
         line = "pyseq dict %s %s" % (itok, " ".join(req))
         ctx.case(line, nontrivial=True)
